@@ -304,10 +304,13 @@ def native_replay(scr, h, test_src, test_name, profile_release=False):
     hook = os.path.join(scr.hooks, rel)
     orig = open(hook).read()
     sub = h.ann.get('_mod', '')
-    if sub:
-        return 'error', 'nested harness modules are not supported by the replay injector'
     try:
-        open(hook, 'w').write(orig + '\n' + test_src + '\n')
+        if sub:
+            # harness lives in an inline module that closes at the end of the file: put the test inside it
+            cut = orig.rstrip().rfind('}')
+            open(hook, 'w').write(orig[:cut] + '\n' + test_src + '\n}\n')
+        else:
+            open(hook, 'w').write(orig + '\n' + test_src + '\n')
         feat = ('--features ' + h.features) if h.features else ''
         rel_flag = '--release' if profile_release else ''
         cmd = ('cargo kani playback -Z concrete-playback -p %s %s %s -- %s --exact --nocapture'
